@@ -12,6 +12,7 @@ use crate::vf::gen_app::*;
 use crate::vf::normalise::*;
 use crate::vf::session::*;
 use crate::vf::sut::*;
+use crate::vf::traffic::{apply_bmuts, bmut};
 use crate::vf::util::*;
 
 pub struct C11;
@@ -23,6 +24,10 @@ pub enum StreamSpec {
     /// a complete call record followed by further bytes of the connection (the start of a
     /// pipelined next record, or a record mark that announced less than was sent)
     RpcThen(RpcCall, Hex),
+    /// a stream that starts with an HTTP signature (`sig_len` bytes) and goes on with a request
+    /// that was damaged: a junk line inserted at a line boundary, bytes set / inserted / deleted
+    /// behind the signature. No verdict is expected, only agreement of all segmentations.
+    Raw { bytes: Hex, sig_len: u16 },
 }
 
 #[derive(Clone, Debug, Serialize, Deserialize, PartialEq)]
@@ -98,6 +103,45 @@ fn small_http() -> impl Strategy<Value = HttpReq> {
     })
 }
 
+fn junk_line() -> impl Strategy<Value = Vec<u8>> {
+    prop_oneof![
+        6 => prop::sample::select(vec![&b"X\rY: a"[..], b"nocolon", b"a b: c", b": v", b"\x00k: v", b"k\x80: v", b"X\r", b"\r", b" folded: v", b"k: v\rw", b"k:", b"GET / HTTP/1.1", b"HTTP/1.1 200 OK", b"k : v", b"k\t: v", b"\n"]).prop_map(|b| b.to_vec()),
+        1 => vec(any::<u8>(), 1..10),
+    ]
+}
+
+/// a small request, damaged behind the signature
+fn small_http_damaged() -> impl Strategy<Value = StreamSpec> {
+    (small_http(), prop::option::weighted(0.8, (junk_line(), any::<u16>(), 0u8..3)), vec(bmut(), 0..3)).prop_map(|(h, junk, muts)| {
+        let sig = HTTP_VERBS[h.verb].len() + 2;
+        let (mut b, end) = h.bytes_and_end();
+        if let Some((j, at, eol)) = junk {
+            // line boundaries of the head (offsets just behind a LF, the end of the head included)
+            let bounds: Vec<usize> = (sig..end).filter(|i| b[*i] == b'\n').map(|i| i + 1).collect();
+            if !bounds.is_empty() {
+                let k = bounds[pick(at, bounds.len())];
+                let mut ins = j;
+                match eol {
+                    0 => {}
+                    1 => ins.extend_from_slice(b"\r\n"),
+                    _ => ins.push(b'\n'),
+                }
+                let tail = b.split_off(k);
+                b.extend_from_slice(&ins);
+                b.extend_from_slice(&tail);
+            }
+        }
+        if !muts.is_empty() && b.len() > sig {
+            let tail = b.split_off(sig);
+            b.extend_from_slice(&apply_bmuts(tail, &muts));
+        }
+        if b.len() < sig + 2 {
+            b.extend_from_slice(b"\r\n\r\n");
+        }
+        StreamSpec::Raw { bytes: Hex(b), sig_len: sig as u16 }
+    })
+}
+
 fn small_rpc() -> impl Strategy<Value = RpcCall> {
     rpc_call().prop_map(|mut r| {
         if r.cred.len() < 255 {
@@ -115,6 +159,7 @@ pub fn case_strategy(big: bool) -> impl Strategy<Value = Case> {
     } else {
         prop_oneof![
             4 => small_http().prop_map(StreamSpec::Http),
+            3 => small_http_damaged(),
             3 => small_rpc().prop_map(StreamSpec::Rpc),
             1 => (small_rpc(), prop_oneof![small_rpc().prop_map(|r| { let mut v = r.record(); v.truncate(40); Hex(v) }), vec(any::<u8>(), 1..12).prop_map(Hex)]).prop_map(|(r, more)| StreamSpec::RpcThen(r, more)),
         ].boxed()
@@ -122,7 +167,7 @@ pub fn case_strategy(big: bool) -> impl Strategy<Value = Case> {
     (scenario_quiet(Fam::Any), port(), port(), spec, vec(vec(any::<u16>(), 3..10), 24)).prop_map(move |(scn, sport, dport, spec, kcuts)| {
         // exhaustive 2-cut enumeration is quadratic: streams beyond 160 bytes (credentials of 255+ bytes)
         // are cut over the boundary set (which holds every offset of the first 64 bytes) instead
-        let n = match &spec { StreamSpec::Http(h) => h.bytes().len(), StreamSpec::Rpc(r) => r.record().len(), StreamSpec::RpcThen(r, m) => r.record().len() + m.len() };
+        let n = match &spec { StreamSpec::Http(h) => h.bytes().len(), StreamSpec::Rpc(r) => r.record().len(), StreamSpec::RpcThen(r, m) => r.record().len() + m.len(), StreamSpec::Raw { bytes, .. } => bytes.len() };
         Case { scn, sport, dport, spec, kcuts, sampled: !big && n > 160 }
     })
 }
@@ -187,6 +232,7 @@ pub fn check(c: &Case, st: &mut Stats) -> Check {
             b.extend_from_slice(more);
             (b, 28, e, r.aligned(), "rpc+more")
         }
+        StreamSpec::Raw { bytes, sig_len } => (bytes.0.clone(), (*sig_len as usize).min(bytes.len().saturating_sub(1)).max(1), bytes.len(), false, "http-damaged"),
     };
     let n = s.len();
     // the precondition of the property: the stream is identified as HTTP / RPC-over-TCP. Streams
@@ -230,7 +276,7 @@ pub fn check(c: &Case, st: &mut Stats) -> Check {
             }
         }
     } else if let Some((t, _)) = &t_fin {
-        st.class("rpc:unaligned-opaque(tracked separately)");
+        st.class(if what == "http-damaged" { "http-damaged:answered-all-the-same" } else { "rpc:unaligned-opaque(tracked separately)" });
         let _ = t;
     }
     let t_inf = t_fin.is_none();
@@ -372,7 +418,7 @@ pub fn check(c: &Case, st: &mut Stats) -> Check {
     st.frames(r.frames);
     st.add_extra("segmentations_checked", checked);
     st.add_extra("segmentations_with_first_cut_inside_signature", inside);
-    if !t_inf {
+    if !t_inf || what == "http-damaged" {
         st.nontrivial_hash(fnv(&s));
         st.sample(|| json!({"protocol": what, "stream": hex(&s[..n.min(120)]), "length": n, "signature_len": sig_len, "request_end": req_end, "trigger_offset": t, "segmentations": checked}));
     }
@@ -391,7 +437,7 @@ impl Prop for C11 {
         "C11"
     }
     fn rule(&self) -> &'static str {
-        "cases = request streams from the HTTP grammar (9 verbs, targets incl. non-UTF-8, 0..3 headers, CRLF/LF per line, optional trailing bytes) and the ONC-RPC-over-TCP call generator (record mark, credential/verifier lengths incl. non-empty verifiers, arguments), length <= ~120 (quick) / ~400 (thorough), delivered through the real path (SYN, learned cookie, PSH|ACK segments with exact seq/ack). Plus streams of 300..12000 bytes (request-target, one header value, the bytes behind the empty line or the call arguments made long; no segment exceeds 4000 bytes, the coarsest delivery of a longer stream is in 4000-byte segments) checked over a boundary set of cuts (every offset of the first 64 bytes, signature end, request end, 2^k-1/2^k/2^k+1 for k=6..13, typical segment sizes, all pairs of those) and regular chunkings of 256..2048 bytes. For every other stream: ALL 1-cut and ALL 2-cut segmentations (exhaustive), the all-ones composition and 24 random k-cut compositions. Oracle: two reference deliveries (unsplit; finest = signature segment then one byte per segment) define the trigger offset T and reply R; T must equal the end of the request per the grammar (HTTP: LF of the empty line; RPC: last byte of the verifier); in every other segmentation each segment ending before T gets a bare ACK and the first segment ending at or after T carries R (HTTP Date masked). Segmentations whose first cut lies inside the identifying signature fall under the listed known finding cut-inside-signature (still executed; reported as KNOWN-FINDING, not as violation). Non-trivial = stream is answered; distinct by stream hash; segmentations counted in coverage.segmentations_checked."
+        "cases = request streams from the HTTP grammar; the same requests damaged behind the signature (a junk line — CR inside a name, no colon, empty name, NUL / high bytes, a second request line, obsolete folding — inserted at a line boundary with CRLF / LF / no line end, and bytes set / inserted / deleted): for these no verdict is expected, only that every segmentation agrees with the unsplit delivery (non-trivial whether answered or not); (9 verbs, targets incl. non-UTF-8, 0..3 headers, CRLF/LF per line, optional trailing bytes) and the ONC-RPC-over-TCP call generator (record mark, credential/verifier lengths incl. non-empty verifiers, arguments), length <= ~120 (quick) / ~400 (thorough), delivered through the real path (SYN, learned cookie, PSH|ACK segments with exact seq/ack). Plus streams of 300..12000 bytes (request-target, one header value, the bytes behind the empty line or the call arguments made long; no segment exceeds 4000 bytes, the coarsest delivery of a longer stream is in 4000-byte segments) checked over a boundary set of cuts (every offset of the first 64 bytes, signature end, request end, 2^k-1/2^k/2^k+1 for k=6..13, typical segment sizes, all pairs of those) and regular chunkings of 256..2048 bytes. For every other stream: ALL 1-cut and ALL 2-cut segmentations (exhaustive), the all-ones composition and 24 random k-cut compositions. Oracle: two reference deliveries (unsplit; finest = signature segment then one byte per segment) define the trigger offset T and reply R; T must equal the end of the request per the grammar (HTTP: LF of the empty line; RPC: last byte of the verifier); in every other segmentation each segment ending before T gets a bare ACK and the first segment ending at or after T carries R (HTTP Date masked). Segmentations whose first cut lies inside the identifying signature fall under the listed known finding cut-inside-signature (still executed; reported as KNOWN-FINDING, not as violation). Non-trivial = stream is answered; distinct by stream hash; segmentations counted in coverage.segmentations_checked."
     }
     fn run(&self, ctx: &mut RunCtx) {
         let n = ctx.share(ctx.tier.n(8_000, 60_000));
